@@ -30,7 +30,6 @@ import (
 	"regexp"
 	"strconv"
 	"strings"
-	"unicode"
 )
 
 type HasArgument interface {
@@ -144,13 +143,18 @@ func (a *IdArg) Parse() error {
 				" not allowed to start with xml: " + str)
 		}
 	}
-	var r rune = rune(str[0])
-	if !(r == '_' || unicode.IsLetter(r)) {
+	// ALPHA and DIGIT of the ABNF are ASCII only; the string is examined
+	// byte by byte, so anything else must be rejected here.
+	isAlpha := func(b byte) bool {
+		return (b >= 'a' && b <= 'z') || (b >= 'A' && b <= 'Z')
+	}
+	if !(str[0] == '_' || isAlpha(str[0])) {
 		return ErrInval
 	}
 	for i := 1; i < len(str); i++ {
-		var r rune = rune(str[i])
-		if !isAlphaNumeric(r) && r != '-' && r != '.' {
+		b := str[i]
+		if !isAlpha(b) && !(b >= '0' && b <= '9') &&
+			b != '_' && b != '-' && b != '.' {
 			return ErrInval
 		}
 	}
